@@ -22,6 +22,9 @@ What is modelled (line numbers of pool.go as of the hook commit):
     `released`     read lock released; hook point `pool.watch.beforeCancel`; the deferred
                    `cancel()` is next;
     `finished`     `cancel()` was called, the goroutine is gone;
+* `Add` (`applyOp v (.add c)`): ignored when the pool context or `closed` is done and — since the
+  fix, `Version.fixed` — when `p.anyLive()` is false, i.e. every context in `p.pool` is done;
+  `Version.orig` keeps the code as found for the witness theorems;
 * `sync.RWMutex`: the only long-lived reader is the watcher (`holdsRead`).  `Add` and `Cancel`
   run their whole body under the write lock, so each is one atomic action `complete`, enabled
   only when the watcher does not hold the read lock.  Before that the caller *announces* itself
@@ -40,6 +43,14 @@ Ghost state (never read by a guard, written only to state the property):
 * `accepted`: contexts appended by `Add`, in order.
 -/
 namespace Kit.Pool
+
+/-- `orig`: `Add` as found (appends whenever neither the pool context nor `closed` is done);
+`fixed`: after `fix: context.Pool.Add ignores a context when every context in the pool is already
+done` (what the property theorems are about). -/
+inductive Version where
+  | orig
+  | fixed
+  deriving DecidableEq, Repr
 
 /-- The two operations that take the write lock. -/
 inductive WOp where
@@ -107,24 +118,36 @@ def State.hasLiveMember (s : State) : Bool :=
 def State.allTrackedEnded (s : State) : Bool :=
   s.pool.all (fun c => decide (c ∈ s.ended))
 
+/-- `p.anyLive()`: some context in `p.pool` is not done yet -/
+def State.anyLive (s : State) : Bool :=
+  s.pool.any (fun c => decide (c ∉ s.ended))
+
+/-- `Add` ignores the context: the pool context is done, `closed` is closed, or (repaired code)
+no context in `p.pool` is live. -/
+def State.addIgnored (v : Version) (s : State) : Bool :=
+  s.done || s.closed ||
+    (match v with
+     | .orig => false
+     | .fixed => !s.anyLive)
+
 /-- Body of `Add` / `Cancel` under the write lock. -/
-def applyOp (s : State) : WOp → State
+def applyOp (v : Version) (s : State) : WOp → State
   | .add c =>
     -- ghost: `c` becomes a member iff the pool is still live and some member is still live
     let mem := if !s.done && s.hasLiveMember then c :: s.members else s.members
-    -- select { case <-p.Done(): case <-p.closed: default: p.pool = append(p.pool, ctx.Done()) }
-    if s.done || s.closed then { s with members := mem }
+    -- select { case <-p.Done(): case <-p.closed: default: if p.anyLive() { p.pool = append(p.pool, ctx.Done()) } }
+    if s.addIgnored v then { s with members := mem }
     else { s with pool := s.pool ++ [c], accepted := s.accepted ++ [c], members := mem }
   | .cancel =>
     -- if p.pool != nil { close(p.closed); p.pool = nil }
     if s.closed then s else { s with closed := true, pool := [] }
 
-def step (s : State) : Label → Option State
+def step (v : Version) (s : State) : Label → Option State
   | .lockReq op => if s.writer.isNone then some { s with writer := some op } else none
   | .complete =>
     match s.writer with
     | none => none
-    | some op => if s.pc.holdsRead then none else some (applyOp { s with writer := none } op)
+    | some op => if s.pc.holdsRead then none else some (applyOp v { s with writer := none } op)
   | .size n => if s.writer.isNone && n == s.pool.length then some s else none
   | .endCtx c => some { s with ended := c :: s.ended }
   | .poll d => if s.done == d then some s else none
@@ -165,25 +188,25 @@ def Label.isInternal : Label → Bool
   | .complete => true
   | a => a.isWatcher
 
-inductive Reach (cfg : Config) : State → Prop where
-  | init : Reach cfg (init cfg)
-  | step {s s' : State} {a : Label} : Reach cfg s → step s a = some s' → Reach cfg s'
+inductive Reach (v : Version) (cfg : Config) : State → Prop where
+  | init : Reach v cfg (init cfg)
+  | step {s s' : State} {a : Label} : Reach v cfg s → step v s a = some s' → Reach v cfg s'
 
 /-- `s'` is reachable from `s` by internal steps only. -/
-inductive InternalPath : State → State → Prop where
-  | refl (s : State) : InternalPath s s
+inductive InternalPath (v : Version) : State → State → Prop where
+  | refl (s : State) : InternalPath v s s
   | step {s s' s'' : State} {a : Label} :
-      a.isInternal = true → step s a = some s' → InternalPath s' s'' → InternalPath s s''
+      a.isInternal = true → step v s a = some s' → InternalPath v s' s'' → InternalPath v s s''
 
 /-! ### State-set simulation (what `kitdrv C20` runs)
 
-The harness reports only observable events.  The simulation keeps the set of model states
+The simulation runs the repaired code (`Version.fixed`).  The harness reports only observable events.  The simulation keeps the set of model states
 compatible with the events so far; after every event the set is closed under watcher steps
 (unless the harness holds the watcher parked at a hook point). -/
 
 /-- The (unique, if any) enabled watcher step. -/
 def watcherStep (s : State) : Option State :=
-  watcherLabels.findSome? (step s)
+  watcherLabels.findSome? (step .fixed s)
 
 /-- `s` and everything the watcher can reach from it on its own (a chain: the watcher is deterministic). -/
 def chain : Nat → State → List State
@@ -215,6 +238,10 @@ inductive Event where
   | add (c : Nat)          -- `Add(c)` was called and returned
   | cancel                 -- `Cancel()` was called and returned
   | release                -- the harness lets the parked watcher go on
+  /-- context `e` ended concurrently with a call of `Add(c)` (`some c`) or `Cancel()` (`none`);
+      both have returned.  The end of a context and the body of a writer are atomic, so they took
+      effect in one of the two orders. -/
+  | race (e : Nat) (c : Option Nat)
   /-- observation: `quiet` = the watcher was seen blocked in its select, parked, or gone;
       `done` = `p.Err() != nil`; `size` = `p.Size()`; `alive` = the watcher goroutine exists -/
   | obs (quiet : Bool) (parked : Parked) (done : Bool) (size : Nat) (alive : Bool)
@@ -227,23 +254,32 @@ def pcMatches (p : Parked) (pc : PC) : Bool :=
   | _, _ => false
 
 def writerOp (sim : Sim) (op : WOp) : Sim :=
-  let s1 := sim.states.filterMap (fun s => step s (.lockReq op))
+  let s1 := sim.states.filterMap (fun s => step .fixed s (.lockReq op))
   let s2 := Sim.close sim.frozen s1
-  let s3 := s2.filterMap (fun s => step s .complete)
+  let s3 := s2.filterMap (fun s => step .fixed s .complete)
   { sim with states := Sim.close sim.frozen s3 }
 
 def advance (sim : Sim) : Event → Sim
   | .endCtx c =>
-    { sim with states := Sim.close sim.frozen (sim.states.filterMap (fun s => step s (.endCtx c))) }
+    { sim with states := Sim.close sim.frozen (sim.states.filterMap (fun s => step .fixed s (.endCtx c))) }
   | .add c => writerOp sim (.add c)
   | .cancel => writerOp sim .cancel
   | .release => { states := Sim.close false sim.states, frozen := false }
+  | .race e c =>
+    let op : WOp := match c with
+      | some c => .add c
+      | none => .cancel
+    let endE (x : Sim) : Sim :=
+      { x with states := Sim.close x.frozen (x.states.filterMap (fun s => step .fixed s (.endCtx e))) }
+    let a := writerOp (endE sim) op
+    let b := endE (writerOp sim op)
+    { sim with states := (a.states ++ b.states).eraseDups }
   | .obs quiet parked done size alive =>
     let frozen := sim.frozen || parked != .no
     let xs := sim.states.filter (fun s =>
       (parked == .no || pcMatches parked s.pc)
-      && (step s (.poll done)).isSome
-      && (step s (.size size)).isSome
+      && (step .fixed s (.poll done)).isSome
+      && (step .fixed s (.size size)).isSome
       && (!quiet || (decide (s.pc ≠ .finished) == alive))
       && (!quiet || frozen || (watcherStep s).isNone))
     { states := xs, frozen := frozen }
